@@ -34,6 +34,19 @@
 (* default; type variables are declared at module level and used only in signatures (where the   *)
 (* return type uses only variables of the parameters or of the enclosing generic class) and       *)
 (* inside generic classes; __init__ returns None.                                                *)
+(*                                                                                            *)
+(* Special method names (fragments "dunder", "dunder2", "fptype"; C05 strengthening).  The       *)
+(* stub reader (pytd/codegen/function.py merge_method_signatures), the printer                   *)
+(* (printer.py VisitFunction / VisitParameter) and the inferencer decide the KIND of a function   *)
+(* and the spelling of its first parameter partly by NAME.  BeginDunder draws the function name   *)
+(* from the alphabet of such names, crossed with the kind (plain / @staticmethod /               *)
+(* @classmethod), the flags (@abstractmethod, ...), the number of signatures (@overload) and the   *)
+(* first parameter (absent / self / cls / other; unannotated or annotated with the enclosing       *)
+(* class); WantDunderProp declares a property under such a name.  The name convention of the      *)
+(* dialect is PINNED here (ImplicitStatic, ImplicitClass, Decorator, ReadKind): a func            *)
+(* declaration made by BeginDunder carries rk = the kind its printed text denotes and ab = its    *)
+(* first parameter's annotation is one the printer leaves out; the driver compares what the       *)
+(* real reader returns with these (clause orig).                                                  *)
 EXTENDS PytdTerms, Json
 
 CONSTANTS MaxTop,      \* declarations at module level; the stub ends when the module is full
@@ -49,7 +62,7 @@ CONSTANTS MaxTop,      \* declarations at module level; the stub ends when the m
 
 AllFrags == {"alias", "import", "tvar", "func", "class", "literal", "callable", "tuple", "union",
              "generic", "type", "nothing", "default", "posonly", "kwonly", "star", "flags",
-             "prop", "slots", "meta", "extern", "value"}
+             "prop", "slots", "meta", "extern", "value", "dunder", "dunder2", "fptype"}
 
 VARIABLES scopes, fn, goal, got, frames, steps, done
 vars == <<scopes, fn, goal, got, frames, steps, done>>
@@ -69,10 +82,12 @@ Imports    == <<[n |-> "os", m |-> "os"], [n |-> "cc", m |-> "collections"]>>
 FromImports == <<[n |-> "Seq", m |-> "typing.Sequence"], [n |-> "OD", m |-> "collections.OrderedDict"]>>
 LitVals    == {"int:0", "int:1", "str:a", "bool:True", "bool:False"}
 
+(* fp: the first parameter of every signature of the function (<<>>: none); dn: made by BeginDunder *)
 NoFn == [n |-> "", kind |-> "", flags |-> <<>>, sigs |-> <<>>, ps |-> <<>>, star |-> <<>>,
-         kw |-> <<>>, open |-> FALSE]
+         kw |-> <<>>, open |-> FALSE, fp |-> <<>>, dn |-> FALSE]
+(* nm: the name chosen for the declaration ("": the first free name of its pool) *)
 NoGoal == [what |-> "", need |-> 0, v |-> FALSE, opt |-> FALSE, pk |-> "", tps |-> <<>>,
-           slots |-> <<>>, meta |-> <<>>]
+           slots |-> <<>>, meta |-> <<>>, nm |-> ""]
 Module0 == [n |-> "", bases |-> <<>>, meta |-> <<>>, slots |-> <<>>, tps |-> <<>>, body |-> <<>>]
 
 Top == scopes[Len(scopes)]
@@ -252,9 +267,10 @@ WantTVar(mode) ==
 
 CommitDecl ==
   /\ Ready /\ goal.what \in {"const", "prop", "alias", "tvar"}
-  /\ LET nm == FirstFree(CASE goal.what = "const" -> ConstNames [] goal.what = "prop" -> PropNames
-                           [] goal.what = "alias" -> AliasNames [] OTHER -> TVarNames,
-                         NamesIn(Body))[1] IN
+  /\ LET nm == IF goal.nm # "" THEN goal.nm
+               ELSE FirstFree(CASE goal.what = "const" -> ConstNames [] goal.what = "prop" -> PropNames
+                                [] goal.what = "alias" -> AliasNames [] OTHER -> TVarNames,
+                              NamesIn(Body))[1] IN
        AddDecl(CASE goal.what = "const" -> [k |-> "const", n |-> nm, t |-> got[1], v |-> goal.v]
                  [] goal.what = "prop" -> [k |-> "prop", n |-> nm, t |-> got[1]]
                  [] goal.what = "alias" -> [k |-> "alias", n |-> nm, t |-> got[1]]
@@ -279,6 +295,66 @@ FirstParam(kind) ==
   IF InModule \/ kind = "static" THEN <<>>
   ELSE <<[n |-> IF kind = "class" THEN "cls" ELSE "self", t |-> AnyT, pk |-> "reg", o |-> FALSE]>>
 
+(* ---- special method names ---- *)
+KindNames  == <<"__new__", "__init_subclass__", "__class_getitem__", "__init__">>
+MoreDunder == <<"__call__", "__getattr__", "__eq__", "__getitem__", "__setattr__", "__hash__",
+                "__enter__", "__post_init__">>
+DunderNames == SeqToSet(KindNames) \cup (IF "dunder2" \in Frags THEN SeqToSet(MoreDunder) ELSE {})
+FirstNames == {"self", "cls", "other"}
+
+(* THE NAME CONVENTION OF THE DIALECT, pinned at the verified commit.                             *)
+(*   ImplicitStatic  read as a staticmethod whatever the decorators say; printed without           *)
+(*                   @staticmethod  (function.py: `name == "__new__" or is_staticmethod`;          *)
+(*                   printer.py: `STATICMETHOD and function_name != "__new__"`)                    *)
+(*   ImplicitClass   the same for @classmethod (`__init_subclass__`)                               *)
+(* Every other name - `__class_getitem__` in particular - has the kind its decorator states.      *)
+ImplicitStatic == {"__new__"}
+ImplicitClass  == {"__init_subclass__"}
+Decorator(n, kind) ==
+  CASE kind = "static" /\ n \notin ImplicitStatic -> "staticmethod"
+    [] kind = "class" /\ n \notin ImplicitClass -> "classmethod"
+    [] OTHER -> ""
+ReadKind(n, deco) ==
+  IF n \in ImplicitStatic \/ deco = "staticmethod" THEN "static"
+  ELSE IF n \in ImplicitClass \/ deco = "classmethod" THEN "class" ELSE "method"
+Denoted(n, kind) == ReadKind(n, Decorator(n, kind))        \* the kind the printed text denotes
+TextStable(n, kind) == Decorator(n, Denoted(n, kind)) = Decorator(n, kind)
+
+(* the class under construction, as a type; the first-parameter annotations the printer leaves   *)
+(* out (printer.py VisitParameter: `self: <class>` and `cls: type[<class>]`, by parameter NAME)   *)
+OwnClass == Cls(PathUpTo(Len(scopes)))
+TypeOf(t) == <<"type", "", <<t>>>>
+AbbrevFirst(fp) ==
+  /\ fp # <<>> /\ ~InModule
+  /\ \/ fp[1].n = "self" /\ fp[1].t = OwnClass
+     \/ fp[1].n = "cls" /\ fp[1].t = TypeOf(OwnClass)
+(* `self: type[C]` is left out: a self annotated with a parameterised type is the documented      *)
+(* deviation generic-self-annotation-becomes-mutation, which has its own witness                  *)
+FirstTypes(first) ==
+  {AnyT} \cup (IF "fptype" \in Frags /\ ~InModule /\ first # ""
+               THEN {OwnClass} \cup (IF first = "self" THEN {} ELSE {TypeOf(OwnClass)}) ELSE {})
+DunderFirst(first, t) ==
+  IF first = "" THEN <<>> ELSE <<[n |-> first, t |-> t, pk |-> "reg", o |-> FALSE]>>
+FuncFlags == IF "flags" \in Frags
+               THEN (IF InModule THEN {<<>>, <<"final">>, <<"coroutine">>}
+                     ELSE {<<>>, <<"abstract">>, <<"final">>, <<"coroutine">>})
+               ELSE {<<>>}
+
+BeginDunder(nm, kind, flags, first, t) ==
+  /\ Free /\ HasRoom /\ "func" \in Frags /\ "dunder" \in Frags
+  /\ nm \in DunderNames /\ nm \notin NamesIn(Body)
+  /\ kind \in (IF InModule THEN {"method"} ELSE {"method", "static", "class"})
+  /\ flags \in FuncFlags
+  /\ first \in FirstNames \cup {""} /\ t \in FirstTypes(first)
+  /\ fn' = [NoFn EXCEPT !.n = nm, !.kind = kind, !.flags = flags, !.ps = DunderFirst(first, t),
+                        !.fp = DunderFirst(first, t), !.open = TRUE, !.dn = TRUE]
+  /\ UNCHANGED <<scopes, goal, got, frames>> /\ Step
+
+WantDunderProp(nm) ==
+  /\ Free /\ HasRoom /\ ~InModule /\ "prop" \in Frags /\ "dunder" \in Frags
+  /\ nm \in DunderNames /\ nm \notin NamesIn(Body)
+  /\ Want([NoGoal EXCEPT !.what = "prop", !.need = 1, !.nm = nm])
+
 BeginFunc(kind, flags) ==
   /\ Free /\ HasRoom /\ "func" \in Frags
   /\ kind \in (IF InModule THEN {"method"} ELSE {"method", "static", "class"})
@@ -290,17 +366,17 @@ BeginFunc(kind, flags) ==
        /\ nm # <<>>
        /\ (nm[1] = "__init__" => kind = "method" /\ flags = <<>>)
        /\ fn' = [NoFn EXCEPT !.n = nm[1], !.kind = kind, !.flags = flags,
-                             !.ps = FirstParam(kind), !.open = TRUE]
+                             !.ps = FirstParam(kind), !.fp = FirstParam(kind), !.open = TRUE]
   /\ UNCHANGED <<scopes, goal, got, frames>> /\ Step
 
 InSig == ~done /\ Idle /\ FnOpen /\ fn.open
 
 BeginSig ==
   /\ ~done /\ Idle /\ FnOpen /\ ~fn.open /\ Len(fn.sigs) < MaxSigs
-  /\ fn' = [fn EXCEPT !.ps = FirstParam(fn.kind), !.star = <<>>, !.kw = <<>>, !.open = TRUE]
+  /\ fn' = [fn EXCEPT !.ps = fn.fp, !.star = <<>>, !.kw = <<>>, !.open = TRUE]
   /\ UNCHANGED <<scopes, goal, got, frames>> /\ Step
 
-OwnParams == Len(fn.ps) - Len(FirstParam(fn.kind))
+OwnParams == Len(fn.ps) - Len(fn.fp)
 Positional(ps) == {k \in DOMAIN ps : ps[k].pk # "kw"}
 
 ParamOK(opt, pk) ==
@@ -308,7 +384,7 @@ ParamOK(opt, pk) ==
   /\ (opt => "default" \in Frags)
   /\ pk \in {"reg"} \cup (IF "posonly" \in Frags THEN {"pos"} ELSE {})
               \cup (IF "kwonly" \in Frags THEN {"kw"} ELSE {})
-  /\ pk = "pos" => \A k \in DOMAIN fn.ps : fn.ps[k].pk = "pos" \/ k <= Len(FirstParam(fn.kind))
+  /\ pk = "pos" => \A k \in DOMAIN fn.ps : fn.ps[k].pk = "pos" \/ k <= Len(fn.fp)
   /\ pk = "pos" => fn.star = <<>>
   /\ pk = "reg" => fn.star = <<>> /\ \A k \in DOMAIN fn.ps : fn.ps[k].pk # "kw"
   /\ (pk # "kw" /\ ~opt) => \A k \in Positional(fn.ps) : ~fn.ps[k].o
@@ -363,7 +439,10 @@ CommitSig ==
 
 EndFunc ==
   /\ ~done /\ Idle /\ FnOpen /\ ~fn.open /\ fn.sigs # <<>>
-  /\ AddDecl([k |-> "func", n |-> fn.n, kind |-> fn.kind, flags |-> fn.flags, sigs |-> fn.sigs])
+  /\ AddDecl(IF fn.dn
+               THEN [k |-> "func", n |-> fn.n, kind |-> fn.kind, flags |-> fn.flags, sigs |-> fn.sigs,
+                     rk |-> Denoted(fn.n, fn.kind), ab |-> AbbrevFirst(fn.fp)]
+               ELSE [k |-> "func", n |-> fn.n, kind |-> fn.kind, flags |-> fn.flags, sigs |-> fn.sigs])
   /\ fn' = NoFn /\ UNCHANGED <<goal, got, frames>> /\ Step
 
 -----------------------------------------------------------------------------
@@ -433,8 +512,20 @@ Class ==
        WantClass(nb, tps, slots, meta)
   \/ CommitClass \/ EndClass
 
+AllDunder == SeqToSet(KindNames) \cup SeqToSet(MoreDunder)
+Dunder ==
+  \/ \E nm \in AllDunder, kind \in {"method", "static", "class"},
+        flags \in {<<>>, <<"abstract">>, <<"final">>, <<"coroutine">>},
+        first \in FirstNames \cup {""} :
+        \E t \in FirstTypes(first) : BeginDunder(nm, kind, flags, first, t)
+  \/ \E nm \in AllDunder : WantDunderProp(nm)
+
 Next == BuildType \/ Declare \/ Function \/ Class \/ End
+(* the generator with the special-name alphabet (a separate next-state relation, so that the     *)
+(* behaviours TLC draws for the configurations that use Next stay exactly what they were)         *)
+NextD == Next \/ Dunder
 Spec == Init /\ [][Next]_vars
+SpecD == Init /\ [][NextD]_vars
 
 -----------------------------------------------------------------------------
 (* properties of the generator itself *)
@@ -449,6 +540,7 @@ TypeOK ==
 
 (* no dead ends: some action is enabled in every state but the final one *)
 NoDeadEnd == done \/ ENABLED Next
+NoDeadEndD == done \/ ENABLED NextD
 
 (* well-scopedness of everything built so far: names are unique per scope *)
 RECURSIVE UniqueNames(_)
@@ -496,6 +588,21 @@ SigsOK(body, ctv) ==
 SignaturesOK ==
   \A k \in DOMAIN scopes :
     SigsOK(scopes[k].body, UNION {SeqToSet(scopes[j].tps) : j \in 1 .. k})
+
+(* the pinned name convention on everything BeginDunder declared: reading is idempotent (what   *)
+(* is read from the re-printed text is what was read from the text), rk is the denoted kind,      *)
+(* and the only cell whose text the convention itself does not reproduce is a `__new__` marked    *)
+(* @classmethod (read as a staticmethod; the documented deviation classmethod-new)                *)
+RECURSIVE DundersIn(_)
+DundersIn(body) ==
+  UNION {IF body[i].k = "func" /\ "rk" \in DOMAIN body[i] THEN {body[i]}
+         ELSE IF body[i].k = "class" THEN DundersIn(body[i].body) ELSE {} : i \in DOMAIN body}
+KindConvention ==
+  \A k \in DOMAIN scopes : \A f \in DundersIn(scopes[k].body) :
+    /\ f.rk = Denoted(f.n, f.kind)
+    /\ Denoted(f.n, f.rk) = f.rk
+    /\ (f.n \notin ImplicitStatic \cup ImplicitClass => f.rk = f.kind)
+    /\ (~TextStable(f.n, f.kind) => <<f.n, f.kind>> = <<"__new__", "class">>)
 
 Stub == [decls |-> scopes[1].body]
 ExportInv ==
